@@ -50,6 +50,17 @@ var R = &Recorder{
 	Witnesses: map[string]string{}, distinct: map[uint64]struct{}{}, distinctCap: 4_000_000, failed: map[string]bool{},
 }
 
+// procSuffix distinguishes the files of native fuzz worker processes (the coordinator re-executes the test binary with
+// -test.fuzzworker once per worker; all of them inherit the same VERIF_* paths).
+func procSuffix() string {
+	for _, a := range os.Args {
+		if a == "-test.fuzzworker" || a == "-test.fuzzworker=true" {
+			return fmt.Sprintf(".w%d", os.Getpid())
+		}
+	}
+	return ""
+}
+
 // Main is the TestMain body shared by all property packages.
 func Main(m *testing.M, property string) {
 	R.Property = property
@@ -66,6 +77,7 @@ func Flush() {
 	if path == "" {
 		return
 	}
+	path += procSuffix()
 	type out struct {
 		*Recorder
 		Distinct       int  `json:"distinct_nontrivial"`
@@ -223,7 +235,7 @@ var crumbOnce sync.Once
 func Crumb(test string, c any) {
 	crumbOnce.Do(func() {
 		if p := os.Getenv("VERIF_CRUMB"); p != "" {
-			crumbFile, _ = os.OpenFile(p, os.O_CREATE|os.O_RDWR|os.O_TRUNC, 0o644)
+			crumbFile, _ = os.OpenFile(p+procSuffix(), os.O_CREATE|os.O_RDWR|os.O_TRUNC, 0o644)
 		}
 	})
 	if crumbFile == nil {
@@ -266,7 +278,7 @@ func Fail(test string, c any, msg string) string {
 	path := ""
 	if dir != "" {
 		_ = os.MkdirAll(dir, 0o755)
-		path = filepath.Join(dir, test+".json")
+		path = filepath.Join(dir, test+procSuffix()+".json")
 		b, _ := json.MarshalIndent(Case{Test: test, Message: msg, Case: mustRaw(c)}, "", " ")
 		_ = os.WriteFile(path, b, 0o644)
 	}
